@@ -61,6 +61,18 @@ pub fn case(rng: &mut Rng, thorough: bool) -> String {
         out.push_str("rerooted ");
     }
     enc::afftree(&mut out, &t);
+    // now and then the generator is started at an inner node or a terminal (`PolyhedraGen::with_root`): the reported
+    // conditions are then those from the parent of the start node on (the edge into the start node, then the sub-tree)
+    let mut start: Option<usize> = None;
+    if rng.chance(1, 6) {
+        let root = t.tree.get_root_idx();
+        let cands: Vec<usize> = t.tree.dfs_iter().map(|d| d.index).filter(|i| *i != root).collect();
+        if !cands.is_empty() {
+            let s0 = *rng.pick(&cands);
+            start = Some(s0);
+            write!(out, " start {}", s0).unwrap();
+        }
+    }
     // skip schedule
     let nsk = t.len() + 2;
     let sk: Vec<usize> = if rng.chance(1, 3) { vec![0; nsk] } else { (0..nsk).map(|_| match rng.below(10) { 0 => 1, 1 => 2, _ => 0 }).collect() };
@@ -73,7 +85,10 @@ pub fn case(rng: &mut Rng, thorough: bool) -> String {
     // generator with skips
     let r = catch_unwind(AssertUnwindSafe(|| {
         let mut rows: Vec<String> = Vec::new();
-        let mut gen = t.polyhedra();
+        let mut gen = match start {
+            Some(s0) => affinitree::pwl::iter::PolyhedraGen::with_root(&t.tree, s0),
+            None => t.polyhedra(),
+        };
         for _ in 0..pre {
             gen.skip_subtree();
         }
